@@ -491,6 +491,39 @@ def load_corpus():
     return cases
 
 
+def enum_cases():
+    """thorough: every grammar with two assignment-free rules R1, R2 over the references
+    {R1, R2, C (common), M (match)} and the body shapes a | a|b | 'k' a | a? b | 'k' a b, except alias
+    cycles (which textX rejects with a RecursionError while resolving rule references); no inputs:
+    kinds, _tx_inh_by and textx_isinstance only."""
+    names = ["R1", "R2", "C", "M"]
+    bodies = []
+    for a in names:
+        bodies.append(["r", a])
+        bodies.append(["seq", [["t", "k"], ["r", a]]])
+        for b in names:
+            bodies.append(["alt", [["r", a], ["r", b]]])
+            bodies.append(["seq", [["opt", ["r", a]], ["r", b]]])
+            bodies.append(["seq", [["t", "k"], ["r", a], ["r", b]]])
+    out = []
+    for i, b1 in enumerate(bodies):
+        for j, b2 in enumerate(bodies):
+            g = {"rules": [{"name": "Model", "body": ["seq", [["asg", "xs", "+=", "R1"]]]},
+                           {"name": "R1", "body": b1}, {"name": "R2", "body": b2},
+                           {"name": "C", "body": ["seq", [["t", "c"], ["asg", "v", "=", "INT"]]]},
+                           {"name": "M", "body": ["seq", [["t", "m"], ["t", "n"]]]}]}
+            rules = {r["name"]: r for r in g["rules"]}
+            cyc = False
+            for start in ("R1", "R2"):
+                if norm(rules[start]["body"])[0] == "r":
+                    end = resolve_alias(start, rules)
+                    if end in ("R1", "R2") and norm(rules[end]["body"])[0] == "r":
+                        cyc = True
+            if not cyc:
+                out.append({"g": g, "inputs": [], "origin": "enum:%d:%d" % (i, j)})
+    return out
+
+
 def make_case(r, i):
     g = Gen(r).grammar()
     inputs = []
@@ -644,12 +677,14 @@ def check_case(chk, c, failures, disagreements):
 
 def run(chk):
     chk.prove([])
-    n = 1200 if chk.thorough else 160
+    n = 900 if chk.thorough else 160
     cases = []
     for c in load_corpus():
         cases.append({"g": c["grammar"], "inputs": c["inputs"], "origin": c["origin"]})
     for i in range(n):
         cases.append(make_case(chk.rng.split(i), i))
+    if chk.thorough:
+        cases += enum_cases()
     failures, disagreements = evaluate(chk, cases)
     chk.cov["rule"] = ("generated grammars: a common root with list attributes over 3-7 rules drawn as common (keyword + INT / contained "
                        "references / lists), match (keywords, base types, references to match rules, aliases) and assignment-free rules whose "
